@@ -86,8 +86,8 @@ def seed_states(module: str, init_expr: str, base_cfg: str, fixed, tmpdir: str,
                           extra=['-dump', path], cwd=tmpdir,
                           java_opts='-DTLA-Library=' + tlc.SPEC_DIR)
         fn = path + '.dump'
-        if not os.path.exists(fn):
-            raise tlc.TLCError('no state dump: ' + (res.error or res.output[-1500:]))
+        if not os.path.exists(fn) or not res.ok:
+            raise tlc.TLCError('seed evaluation failed: ' + (res.error or res.output[-1500:]))
         text = open(fn).read()
     finally:
         shutil.rmtree(d, ignore_errors=True)
@@ -105,15 +105,19 @@ class Hang(Exception):
 
 @contextmanager
 def watchdog(seconds: float):
+    """Raises Hang inside the running Python code after `seconds` of CPU time
+    of this process (ITIMER_VIRTUAL): a spinning loop is interrupted, a
+    process that is merely descheduled on a loaded machine is not.  The code
+    under test never blocks (the event loop is driven by the harness)."""
     def _raise(signum, frame):
-        raise Hang(f'no result after {seconds} s')
-    old = signal.signal(signal.SIGALRM, _raise)
-    signal.setitimer(signal.ITIMER_REAL, seconds)
+        raise Hang(f'no result after {seconds} s of CPU time')
+    old = signal.signal(signal.SIGVTALRM, _raise)
+    signal.setitimer(signal.ITIMER_VIRTUAL, seconds)
     try:
         yield
     finally:
-        signal.setitimer(signal.ITIMER_REAL, 0)
-        signal.signal(signal.SIGALRM, old)
+        signal.setitimer(signal.ITIMER_VIRTUAL, 0)
+        signal.signal(signal.SIGVTALRM, old)
 
 
 # --------------------------------------------------------------------------
